@@ -99,6 +99,10 @@ impl C17 {
                 ctx.violation("rank_select:rank_0-wrong", desc(format!("rank_0({}) = {:?} expected {:?}", i, g0, e0)));
                 return;
             }
+            if guard(|| rs.rank(i as u64)) != Ok(e1) {
+                ctx.violation("rank_select:rank-alias-differs", desc(format!("rank({}) differs from rank_1", i)));
+                return;
+            }
             if i < n && guard(|| rs.get(i as u64)) != Ok(shadow[i]) {
                 ctx.violation("rank_select:get-wrong", desc(format!("get({})", i)));
                 return;
@@ -116,6 +120,10 @@ impl C17 {
             }
             if g0 != Ok(e0) {
                 ctx.violation("rank_select:select_0-wrong", desc(format!("select_0({}) = {:?} expected {:?} ({} zeros)", j, g0, e0, pos0.len())));
+                return;
+            }
+            if guard(|| rs.select(j)) != Ok(e1) {
+                ctx.violation("rank_select:select-alias-differs", desc(format!("select({}) differs from select_1", j)));
                 return;
             }
             // inverse laws
